@@ -333,24 +333,7 @@ func r09_4(c *Ctx, rule string) {
 		n := 0
 		for _, s := range fieldStoresIn(lit, "fsutil.DirEntryInfo.seenFiles") {
 			n++
-			ok := false
-			var v ssa.Value = s.Val
-			if u, isU := v.(*ssa.UnOp); isU && u.Op == token.MUL {
-				if fv, isFV := u.X.(*ssa.FreeVar); isFV {
-					if root := c.P.Census().Root(fv); root != nil && root.Parent() == w {
-						for _, r := range eng.Referrers(root) {
-							if st, isS := r.(*ssa.Store); isS && st.Addr == ssa.Value(root) {
-								if _, isMM := st.Val.(*ssa.MakeMap); isMM {
-									ok = true
-								}
-							}
-						}
-						if len(c.P.Census().CellStorers(root)) != 1 {
-							ok = false
-						}
-					}
-				}
-			}
+			ok := c.perCallMap(s.Val, w)
 			c.R.Check(ok, rule, c.name(lit)+"/inode-map", c.pos(s), "the entry's inode map is the one map made at the start of this Walk", "the inode map given to entries is not a single map allocated once per Walk (per-entry or shared maps break first-seen hard-link detection)")
 		}
 		c.R.Floor(rule, "DirEntryInfo literals carrying the inode map", n, 1)
